@@ -1,9 +1,11 @@
 (** C19 - every committed object is found, exactly once, under any layout.
     Property theorems only; each closed by [exact] of a lemma from Proofs/.
     [gm] is the glob matcher (globset; external, universally quantified),
-    [m] the mapping of the configured storage layout (C11's subject). *)
+    [m] the mapping of the configured storage layout (C11's subject).
+    Two former known classes are repaired in /repo and no longer excluded:
+    root-named-extensions (38fe584) and stale-id-path-cache (4564259). *)
 From Rocfl Require Import Base.Bytes Generated.Consts Model.Listing Model.KnownC19
-  Proofs.ListingFacts Proofs.ListingWalkFacts Proofs.ListingGetFacts Proofs.ListingWitness.
+  Proofs.ListingFacts Proofs.ListingWalkFacts Proofs.ListingGetFacts Proofs.ListingHandle Proofs.ListingWitness.
 From Coq Require Import Permutation.
 Open Scope N_scope.
 
@@ -12,11 +14,12 @@ Theorem C19_regex_pinned : K_OBJECT_ID_MATCHER = b """id""\s*:\s*""([^""]+)""".
 Proof. exact object_id_matcher_pinned. Qed.
 Print Assumptions C19_regex_pinned.
 
-(** listing without a glob: every committed object exactly once, no error item
-    (only the extensions class has to be excluded; ids that need escaping are
-    listed correctly because no pre-filter runs) *)
+(** listing without a glob: every committed object exactly once, no error item -
+    for every well-formed repository (objects below a directory that is merely
+    NAMED extensions included; ids that need escaping are listed correctly
+    because no pre-filter runs) *)
 Theorem C19_listing_exact : forall gm t,
-  WellFormedRepo t -> c19_root_named_extensions t = false ->
+  WellFormedRepo t ->
   Permutation (listed_ids (list_objects gm t None)) (committed_ids t) /\
   NoDup (listed_ids (list_objects gm t None)) /\
   listed_errors (list_objects gm t None) = [].
@@ -25,20 +28,27 @@ Print Assumptions C19_listing_exact.
 
 (** listing with a glob: exactly the committed ids the glob matches *)
 Theorem C19_listing_glob : forall gm t g,
-  WellFormedRepo t -> c19 t = false ->
+  WellFormedRepo t -> c19_id_needs_escape t = false ->
   Permutation (listed_ids (list_objects gm t (Some g))) (filter (gm g) (committed_ids t)) /\
   listed_errors (list_objects gm t (Some g)) = [].
 Proof. exact listing_glob_lemma. Qed.
 Print Assumptions C19_listing_glob.
 
-(** nothing at or below a directory named extensions is ever yielded (in
-    particular no staged-only object of extensions/rocfl-staging); holds for
-    every tree and every glob.  This very rule causes finding root-named-extensions. *)
+(** nothing at or below the storage root's extensions directory is ever yielded
+    (in particular no staged-only object of extensions/rocfl-staging); holds for
+    every tree and every glob *)
 Theorem C19_no_extension_objects : forall gm t glob it,
   In it (list_objects gm t glob) ->
-  has_ext (match it with IOk p _ => p | IErr p => p end) = false.
+  in_root_ext (match it with IOk p _ => p | IErr p => p end) = false.
 Proof. exact no_extension_items. Qed.
 Print Assumptions C19_no_extension_objects.
+
+(** the walk yields exactly the object roots of the repository: directories with
+    an object declaration, outside other objects and outside the storage root's
+    extensions directory *)
+Theorem C19_walk_is_spec : forall t, walk t = spec_roots t.
+Proof. exact walk_is_spec. Qed.
+Print Assumptions C19_walk_is_spec.
 
 (** the pre-filter reads the id off an inventory written by rocfl iff the id
     needs no JSON escape (the right-hand side is the classifier); in general it
@@ -57,7 +67,7 @@ Print Assumptions C19_extract_is_raw_capture.
 (** lookup by scanning (repository without a layout): found iff committed, and
     then it is that object; never another answer *)
 Theorem C19_get_found_iff_committed : forall t id,
-  Forall wf_root (spec_roots t) -> c19 t = false ->
+  Forall wf_root (spec_roots t) -> c19_id_needs_escape t = false ->
   (forall p j, scan_for_inventory t id = Found p j -> j = id /\ In id (committed_ids t)) /\
   (In id (committed_ids t) -> exists p, scan_for_inventory t id = Found p id) /\
   (~ In id (committed_ids t) -> scan_for_inventory t id = NotFound) /\
@@ -74,24 +84,42 @@ Theorem C19_get_by_layout_path : forall m t i,
 Proof. exact get_by_layout_path_lemma. Qed.
 Print Assumptions C19_get_by_layout_path.
 
-(** get_inventory with the id->path cache of the handle *)
-Theorem C19_get_inventory_nolayout : forall c t i,
-  Forall wf_root (spec_roots t) -> names_unique t = true -> c19 t = false -> c19_cache_stale c t i = false ->
+(** get_inventory with the id->path cache of the handle.  [reachable lay t c]:
+    the handle was opened and then used for any sequence of lookups and purges
+    while objects were created and versions committed ([Keeps]: every existing
+    object stays where it is); without layout every state a lookup or purge ran
+    on was in the good class ([Good]: well formed, unique names, no id that
+    needs a JSON escape).  The cache then never lies. *)
+Theorem C19_handle_cache_sound : forall t c, reachable None t c -> cache_sound c t = true.
+Proof. exact reachable_sound. Qed.
+Print Assumptions C19_handle_cache_sound.
+
+Theorem C19_get_inventory_nolayout : forall t c i,
+  reachable None t c -> Good t ->
+  (In i (committed_ids t) -> exists p, fst (get_inventory None c t i) = Found p i) /\
+  (~ In i (committed_ids t) -> fst (get_inventory None c t i) = NotFound).
+Proof. exact handle_nolayout. Qed.
+Print Assumptions C19_get_inventory_nolayout.
+
+Theorem C19_get_inventory_layout : forall m t c i,
+  reachable (Some m) t c -> names_unique t = true -> Placed m t ->
+  (In i (committed_ids t) -> exists p, fst (get_inventory (Some m) c t i) = Found p i) /\
+  (~ In i (committed_ids t) -> lookup_path t (m i) = None -> fst (get_inventory (Some m) c t i) = NotFound).
+Proof. exact handle_layout. Qed.
+Print Assumptions C19_get_inventory_layout.
+
+(** the same for ANY cache content that names true object roots / layout paths *)
+Theorem C19_get_inventory_sound_cache : forall c t i,
+  Forall wf_root (spec_roots t) -> names_unique t = true -> c19_id_needs_escape t = false ->
+  cache_sound c t = true ->
   (In i (committed_ids t) -> exists p, fst (get_inventory None c t i) = Found p i) /\
   (~ In i (committed_ids t) -> fst (get_inventory None c t i) = NotFound).
 Proof. exact get_inventory_nolayout. Qed.
-Print Assumptions C19_get_inventory_nolayout.
-
-Theorem C19_get_inventory_layout : forall m c t i,
-  names_unique t = true -> Placed m t -> c19_cache_stale c t i = false ->
-  (In i (committed_ids t) -> exists p, fst (get_inventory (Some m) c t i) = Found p i) /\
-  (~ In i (committed_ids t) -> lookup_path t (m i) = None -> fst (get_inventory (Some m) c t i) = NotFound).
-Proof. exact get_inventory_layout. Qed.
-Print Assumptions C19_get_inventory_layout.
+Print Assumptions C19_get_inventory_sound_cache.
 
 (** purge removes exactly that id: from the listing, from the scan and from the path *)
 Theorem C19_purged_not_found : forall gm t p ces i,
-  WellFormedRepo t -> names_unique t = true -> c19 t = false ->
+  WellFormedRepo t -> names_unique t = true -> c19_id_needs_escape t = false ->
   In (p, ces) (walk t) -> In i (root_id (p, ces)) ->
   Permutation (listed_ids (list_objects gm (remove_at t p) None))
               (filter (fun j => negb (bytes_eqb j i)) (committed_ids t)) /\
@@ -101,9 +129,43 @@ Theorem C19_purged_not_found : forall gm t p ces i,
 Proof. exact purged_not_found_lemma. Qed.
 Print Assumptions C19_purged_not_found.
 
+(** purge_object through a handle without layout: the object's root (and nothing
+    else) is removed, the cached path is forgotten, and the SAME handle then
+    reports the id as not found and still finds every other object *)
+Theorem C19_purge_through_handle : forall gm t c i,
+  reachable None t c -> Good t -> In i (committed_ids t) ->
+  exists p, Rooted t i p /\
+    purge_object None c t i = (POk, remove_at t p, cache_remove c i) /\
+    Permutation (listed_ids (list_objects gm (remove_at t p) None))
+                (filter (fun j => negb (bytes_eqb j i)) (committed_ids t)) /\
+    fst (get_inventory None (cache_remove c i) (remove_at t p) i) = NotFound /\
+    (forall j, j <> i -> In j (committed_ids t) ->
+       exists p', fst (get_inventory None (cache_remove c i) (remove_at t p) j) = Found p' j).
+Proof. exact handle_purge_nolayout. Qed.
+Print Assumptions C19_purge_through_handle.
+
+(** purge of an id that is not committed changes nothing *)
+Theorem C19_purge_absent : forall t c i,
+  reachable None t c -> Good t -> ~ In i (committed_ids t) -> purge_object None c t i = (POk, t, c).
+Proof. exact handle_purge_absent_nolayout. Qed.
+Print Assumptions C19_purge_absent.
+
+Theorem C19_purge_through_handle_layout : forall m t c i,
+  reachable (Some m) t c -> names_unique t = true -> Placed m t -> In i (committed_ids t) ->
+  fst (purge_object (Some m) c t i) = (POk, remove_at t (m i)) /\
+  fst (get_inventory (Some m) (snd (purge_object (Some m) c t i)) (remove_at t (m i)) i) = NotFound.
+Proof. exact handle_purge_layout. Qed.
+Print Assumptions C19_purge_through_handle_layout.
+
+(** the guard of purge (validate_object_root) accepts the root of every object of the repository *)
+Theorem C19_object_roots_pass_guard : forall t p ces,
+  names_unique t = true -> In (p, ces) (walk t) -> validate_object_root t p = true.
+Proof. exact walk_root_validates. Qed.
+Print Assumptions C19_object_roots_pass_guard.
+
 (** the staged listing is the same walk over the staging root *)
 Theorem C19_staged_listing_exact : forall gm s,
-  WellFormedRepo s -> c19_root_named_extensions s = false ->
+  WellFormedRepo s ->
   Permutation (listed_ids (list_staged_objects gm s None)) (committed_ids s) /\
   NoDup (listed_ids (list_staged_objects gm s None)) /\
   listed_errors (list_staged_objects gm s None) = [].
@@ -111,31 +173,23 @@ Proof. exact staged_listing_exact_lemma. Qed.
 Print Assumptions C19_staged_listing_exact.
 
 Theorem C19_staged_listing_glob : forall gm s g,
-  WellFormedRepo s -> c19 s = false ->
+  WellFormedRepo s -> c19_id_needs_escape s = false ->
   Permutation (listed_ids (list_staged_objects gm s (Some g))) (filter (gm g) (committed_ids s)) /\
   listed_errors (list_staged_objects gm s (Some g)) = [].
 Proof. exact staged_listing_glob_lemma. Qed.
 Print Assumptions C19_staged_listing_glob.
 
 (** The excluded classes are genuine defects of the modelled code (known findings). *)
-Theorem C19_known_root_named_extensions_refuted :
-  WellFormedRepo w_ext /\
-  c19_root_named_extensions w_ext = true /\ c19_id_needs_escape w_ext = false /\
-  committed_ids w_ext = [b "extensions"] /\
-  list_objects lit_match w_ext None = [] /\
-  scan_for_inventory w_ext (b "extensions") = NotFound /\
-  get_inventory_by_path w_ext (b "extensions") w_ext_path = Found w_ext_path (b "extensions").
-Proof. exact (conj w_ext_wf w_ext_facts). Qed.
-Print Assumptions C19_known_root_named_extensions_refuted.
-
 Theorem C19_known_id_needs_escape_refuted :
   WellFormedRepo w_esc /\
-  c19_root_named_extensions w_esc = false /\ c19_id_needs_escape w_esc = true /\
+  c19_id_needs_escape w_esc = true /\
   listed_ids (list_objects lit_match w_esc None) = [w_idq; b "plain"] /\
   raw_capture w_idq = w_idb /\
   scan_for_inventory w_esc w_idq = NotFound /\
   scan_for_inventory w_esc w_idb = Found [b "objs"; b "x"] w_idq /\
-  list_objects lit_match w_esc (Some w_idq) = [].
+  list_objects lit_match w_esc (Some w_idq) = [] /\
+  snd (get_inventory None [] w_esc w_idb) = [(w_idb, [b "objs"; b "x"])] /\
+  fst (get_inventory None [(w_idb, [b "objs"; b "x"])] w_esc w_idb) = Corrupt.
 Proof. exact (conj w_esc_wf w_esc_facts). Qed.
 Print Assumptions C19_known_id_needs_escape_refuted.
 
@@ -147,18 +201,44 @@ Theorem C19_known_layout_path_occupied_refuted :
 Proof. exact w_occupied_facts. Qed.
 Print Assumptions C19_known_layout_path_occupied_refuted.
 
-Theorem C19_known_stale_cache_refuted :
-  committed_ids w_stale = [b "B1"] /\ c19 w_stale = false /\
-  c19_cache_stale w_cache w_stale (b "A1") = true /\
-  fst (get_inventory None w_cache w_stale (b "A1")) = Corrupt /\
-  fst (get_inventory None [] w_stale (b "A1")) = NotFound.
-Proof. exact w_stale_facts. Qed.
-Print Assumptions C19_known_stale_cache_refuted.
+(** The two repaired classes, as examples of the theorems above, each with a
+    historical note: the definitions [walk_before_fix] / [purge_cache_before_fix]
+    are the code before 38fe584 / 4564259 and violated the property. *)
+Example C19_repaired_root_named_extensions :
+  WellFormedRepo w_ext /\
+  c19_id_needs_escape w_ext = false /\
+  committed_ids w_ext = [b "extensions"] /\
+  list_objects lit_match w_ext None = [IOk w_ext_path (b "extensions")] /\
+  list_objects lit_match w_ext (Some (b "extensions")) = [IOk w_ext_path (b "extensions")] /\
+  scan_for_inventory w_ext (b "extensions") = Found w_ext_path (b "extensions") /\
+  get_inventory_by_path w_ext (b "extensions") w_ext_path = Found w_ext_path (b "extensions") /\
+  validate_object_root w_ext w_ext_path = true /\
+  validate_object_root w_ext [EXT; b "rocfl-staging"; b "abc"] = false.
+Proof. exact (conj w_ext_wf w_ext_facts). Qed.
+
+Example C19_history_root_named_extensions_before_fix :
+  walk_before_fix w_ext = [] /\ walk w_ext = [(w_ext_path, w_obj false (b "extensions"))].
+Proof. exact w_ext_before_fix. Qed.
+
+Example C19_repaired_stale_cache :
+  snd (get_inventory None [] w_stale0 (b "A1")) = w_cache /\
+  purge_object None w_cache w_stale0 (b "A1") = (POk, remove_at w_stale0 [b "reuse"; b "x"], []) /\
+  committed_ids w_stale = [b "B1"] /\
+  reachable None w_stale [] /\
+  fst (get_inventory None [] w_stale (b "A1")) = NotFound /\
+  fst (get_inventory None [] w_stale (b "B1")) = Found [b "reuse"; b "x"] (b "B1").
+Proof. exact w_stale_history. Qed.
+
+Example C19_history_stale_cache_before_fix :
+  purge_cache_before_fix None w_cache w_stale0 (b "A1") = w_cache /\
+  cache_sound w_cache w_stale = false /\
+  fst (get_inventory None w_cache w_stale (b "A1")) = Corrupt.
+Proof. exact w_stale_before_fix. Qed.
 
 (** Non-vacuity: a well-formed repository outside every class, with a staged-only
     object that is not listed, and its staging root as a repository of its own. *)
 Example C19_nonvacuous :
-  WellFormedRepo w_good /\ names_unique w_good = true /\ c19 w_good = false /\
+  WellFormedRepo w_good /\ names_unique w_good = true /\ c19_id_needs_escape w_good = false /\
   committed_ids w_good = [b "one"; b "two*[x]"] /\
   list_objects lit_match w_good None = [IOk [b "a"; b "b"] (b "one"); IOk [b "a"; b "c"] (b "two*[x]")] /\
   list_objects lit_match w_good (Some (b "two*[x]")) = [IOk [b "a"; b "c"] (b "two*[x]")] /\
@@ -169,6 +249,6 @@ Example C19_nonvacuous :
 Proof. exact (conj w_good_wf w_good_facts). Qed.
 
 Example C19_nonvacuous_staging :
-  WellFormedRepo w_staging /\ c19 w_staging = false /\
+  WellFormedRepo w_staging /\ c19_id_needs_escape w_staging = false /\
   list_staged_objects lit_match w_staging None = [IOk [b "abc"] (b "staged-only")].
 Proof. exact w_staging_wf. Qed.
